@@ -40,8 +40,15 @@ def main():
         if sel and not any(x in name for x in sel):
             continue
         fix = os.path.join(VERIF, "findings", dirs.get(f["id"], f["id"]), "fix.diff")
-        a = subprocess.run(["git", "-C", "/repo", "apply", "-R", fix], capture_output=True, text=True)
+        # a later fix that rewrote the same lines is taken out first (D16 replaced the guard D12 had added)
+        chain = [os.path.join(VERIF, "findings", x, "fix.diff") for x in f.get("revert_after", [])] + [fix]
+        a = None
+        for fx in chain:
+            a = subprocess.run(["git", "-C", "/repo", "apply", "-R", fx], capture_output=True, text=True)
+            if a.returncode != 0:
+                break
         if a.returncode != 0:
+            subprocess.run(["git", "-C", "/repo", "checkout", "--", "."], check=True)
             print("%-55s fix does not reverse-apply: %s" % (name, a.stderr.strip()[:100])); bad += 1; continue
         pid = f["properties"][0]
         try:
@@ -49,9 +56,10 @@ def main():
         finally:
             subprocess.run(["git", "-C", "/repo", "checkout", "--", "."], check=True)
         line = [l for l in p.stdout.splitlines() if l.startswith("FAILED-OBLIGATION") or l.startswith("UNDECIDED:")][:1]
-        ok = p.returncode == 1
+        want = f.get("revert_expected_exit", 1)
+        ok = p.returncode == want
         bad += 0 if ok else 1
-        print("%-55s %s exit=%d (want 1) %s %s" % (name, "ok  " if ok else "FAIL", p.returncode, pid, (line[0][:100] if line else "")))
+        print("%-55s %s exit=%d (want %d) %s %s" % (name, "ok  " if ok else "FAIL", p.returncode, want, pid, (line[0][:100] if line else "")))
     print("seeded regression: %s" % ("all as recorded" if bad == 0 else "%d differ" % bad))
     return 1 if bad else 0
 if __name__ == "__main__":
